@@ -138,11 +138,20 @@ func runHistory() {
 				obj := hw.mk()
 				var last *gozxing.BitMatrix
 				var lastErr error
+				kept := make([]*gozxing.BitMatrix, 0, len(seq)) // every image of the sequence is retained
 				pm, site := mc.Guard(func() {
 					for _, c := range seq {
 						last, lastErr = do(obj, c)
+						kept = append(kept, last)
 					}
 				})
+				// an image handed out earlier must not change when later images are produced
+				for k := 0; k+1 < len(kept) && pm == ""; k++ {
+					if !sameMatrix(kept[k], fresh[seq[k]]) {
+						chk.Violation("C14/"+hw.name+"/history/retained-image-changed", fmt.Sprintf("%s: the image returned by call %d of %+v changed after the later calls on the same writer object", hw.name, k+1, seq), hcase{hw.name, seq})
+						break
+					}
+				}
 				l.Count("evaluations", 1)
 				final := seq[len(seq)-1]
 				cs := hcase{hw.name, seq}
